@@ -62,5 +62,9 @@ int valid_override(string file, string name) { return 1; }
 int valid_save_binary(string file) { return !undefinedp(pol["save_binary"]) && pol["save_binary"]; }
 int valid_socket(object ob, string fn, mixed *info) { return 0; }
 int valid_link(string a, string b) { return 1; }
-string get_save_file_name(string f) { return f + ".edsave"; }
+string get_save_file_name(string f, mixed who) {
+  if (pol["log_fs"]) mlog += ({ ({ "get_save_file_name", f, objectp(who) ? file_name(who) : who, "ed" }) });
+  if (!undefinedp(pol["ed_save_name"])) return pol["ed_save_name"];
+  return f + ".edsave";
+}
 string make_path_absolute(string f) { return f; }
